@@ -97,6 +97,7 @@ let run_case (toks : string list) : string =
             | ["P"; br; id; dl; blob] -> StP (nat_of_int (int_of_string br), bytes_of_ascii id, z_of_int (int_of_string dl), bytes_of_hex blob)
             | _ -> failwith "step" in
           let next0 = int_of_n (!w).w_next in
+          let wold = !w in
           let (w', o) = do_step fresh_hex c !w step in
           w := w';
           let next = int_of_n w'.w_next in
@@ -109,7 +110,7 @@ let run_case (toks : string list) : string =
           | StAraw _, _ | StAhist _, _ -> Buffer.add_string b "A"
           | StX _, _ -> Buffer.add_string b "X"
           | StP _, _ -> Buffer.add_string b "P"
-          | StR (br, _), Some o ->
+          | StR (br, script), Some o ->
               Buffer.add_string b "R";
               (match o.o_loaded with
                | Some ((((ld, d), t), h), srv) ->
@@ -121,6 +122,8 @@ let run_case (toks : string list) : string =
                | None -> ());
               Buffer.add_string b (" ops=[" ^ String.concat "," (List.map (render_op next) o.o_log) ^ "]");
               Buffer.add_string b (" jar=[" ^ render_jar next (get_jar w' br) ^ "]");
+              (* deletion cookies (Max-Age=0) emitted for exposed-value cookie names, as a sorted set of keys *)
+              Buffer.add_string b (" del=[" ^ String.concat "," (List.map hexs (request_dels fresh_hex c wold br script)) ^ "]");
               let alive = List.filter_map (fun id -> match st_load w'.w_now id w'.w_store with
                                                      | Some (dl, _) -> Some (render_id next id ^ ":" ^ zs dl) | None -> None) !known in
               Buffer.add_string b (" alive=[" ^ String.concat "," alive ^ "]")
